@@ -171,6 +171,8 @@ SCALARS = {"u8": "u8", "u64": "u64", "i32": "i32", "usize": "usize", "bool": "bo
 S3 = struct("S3", [], [("a", prim("u8")), ("b", prim("u16")), ("c", prim("u64"))])
 # further callback element types (C18: several distinct `Callback_c_void__<T>` in one header)
 POINT2 = struct("Point2", [], [("x", prim("i32")), ("y", prim("i32"))])
+# a user struct with two type parameters: C++ spells it `Pair<CSliceRef<uint8_t>, uintptr_t>` (a comma inside <>), C mangles it
+PAIR = struct("Pair", ["A", "B"], [("a", path("A")), ("b", path("B"))], [" A key/value pair."])
 ADDR = struct("Addr", [], [("base", prim("u64")), ("len", prim("u32"))], [" A user address range."])
 
 
@@ -190,6 +192,8 @@ def arg_type(kind):
         return path("OpaqueCallback", path("Point2"))
     if kind == "cb_p3":
         return path("OpaqueCallback", path("Addr"))
+    if kind == "pair":
+        return path("Pair", path("CSliceRef", prim("u8")), prim("usize"))
     if kind == "ptr_const":
         return ptr(prim("u8"), True)
     if kind == "ptr_mut":
@@ -358,6 +362,7 @@ def build_library(model):
     add(dict(S3))
     add(dict(POINT2))
     add(dict(ADDR))
+    add(dict(PAIR))
     for c in model.get("custom_contexts", []):
         add(struct(c, [], [("id", prim("u64")), ("refs", ptr(prim("u32"), False))], [" User-defined clone context %s." % c]))
 
